@@ -175,7 +175,14 @@ func VerifC04Closure() {
 	f := asg("f", fn(blk(body...), par))
 	vrt.Note("function", Src(f))
 	p.steps("define", false, f)
-	p.Step(asg("h", call("f", lit())), true, tag+"call")
+	if vrt.Bool("called-through-a-wrapper") {
+		// the defining function is not called straight from top level: a call below it has created
+		// no function value of its own
+		p.steps("define", false, asg("outer", fn(blk(asg("pre", lit()), call("f", nm("v"))), "v")))
+		p.Step(asg("h", call("outer", lit())), true, tag+"call")
+	} else {
+		p.Step(asg("h", call("f", lit())), true, tag+"call")
+	}
 	p.observe("after-call")
 	switch how {
 	case 0, 1:
